@@ -109,6 +109,11 @@ func cacheGenPool(r *common.Rand, n int, mode string) (map[string]common.JEvent,
 		if extreme && r.Chance(35) {
 			e.TS = common.Pick(r, common.ExtremeTS)
 		}
+		if r.Chance(8) {
+			// kinds at the borders of the classes (regular < 10000 <= replaceable < 20000 <= ephemeral < 30000 <=
+			// addressable < 40000 <= regular), and the special replaceable kinds 0 and 3
+			e.Kind = common.Pick(r, []int64{2, 4, 9999, 10001, 19999, 29999, 39999, 40000, 40001, 65535})
+		}
 		// ordinary tags (for the index)
 		for k := r.Intn(3); k > 0; k-- {
 			switch r.Intn(5) {
@@ -253,7 +258,7 @@ func cacheGenFilter(r *common.Rand, ids []string, sel int) common.JFilter {
 	if r.Chance(sel) {
 		ks := []int64{}
 		for k := r.Intn(4); k > 0; k-- {
-			ks = append(ks, common.Pick(r, []int64{0, 1, 4, 5, 10000, 30000, 30001}))
+			ks = append(ks, common.Pick(r, []int64{0, 1, 4, 5, 10000, 30000, 30001, 40000}))
 		}
 		f.Kinds = &ks
 	}
